@@ -27,7 +27,7 @@ def run(s):
     else:
         K.item_grid(s, 5, kmax=3, full=True)
         K.item_grid(s, 6, kmax=2, full=False, item_names=K.HOSTILE_NAMES)
-        K.fuzz(s, 6000, K.kind_weights(story=0.2, item=1.0, other=0.15), steps=(5, 40))
+        K.fuzz(s, 15000, K.kind_weights(story=0.2, item=1.0, other=0.15), steps=(5, 40))
 
 
 replay = K.replay_transition
